@@ -6,17 +6,31 @@ From IMB Require Import Mgr.SafeData Mgr.SafeDataInst Proofs.SafeDataProofs Proo
 Import ListNotations.
 
 (* For ALL histories of submits and flushes on a family whose SAFE_DATA steps satisfy the
-   obligation: whenever no job is in flight every sensitive field equals its reset image. *)
+   obligation: whenever no job is in flight every sensitive field equals its reset image
+   (k_junk: fields that kernels turn into job-independent garbage in job-less lanes; for those
+   see ooo_idle_holds_no_job_data). *)
 Theorem ooo_clean_when_idle :
   forall (fam : family) (n : nat) (ops : list op) (s : state),
     family_ok fam = true ->
     run fam (reset_state fam n) ops = Some s ->
     idle s ->
     forall ln i f,
-      In ln s -> nth_error fam i = Some f -> claim f = true ->
+      In ln s -> nth_error fam i = Some f -> claim f = true -> k_junk f = false ->
       nth_error (l_fld ln) i = nth_error (l_fld (reset_lane fam)) i.
 Proof. exact ooo_clean_when_idle_lemma. Qed.
 Print Assumptions ooo_clean_when_idle.
+
+(* Whenever no job is in flight no sensitive field holds anything derived from any job. *)
+Theorem ooo_idle_holds_no_job_data :
+  forall (fam : family) (n : nat) (ops : list op) (s : state),
+    family_ok fam = true ->
+    run fam (reset_state fam n) ops = Some s ->
+    idle s ->
+    forall ln i f j,
+      In ln s -> nth_error fam i = Some f -> claim f = true ->
+      nth_error (l_fld ln) i <> Some (Data j).
+Proof. exact ooo_idle_holds_no_job_data_lemma. Qed.
+Print Assumptions ooo_idle_holds_no_job_data.
 
 (* A freed lane holds nothing of the job that left it, even while other lanes are busy. *)
 Theorem ooo_lane_clean_after_completion :
@@ -39,7 +53,8 @@ Theorem ooo_free_lane_clean :
     run fam (reset_state fam n) ops = Some s ->
     forall ln i f,
       In ln s -> l_job ln = None -> nth_error fam i = Some f -> claim f = true ->
-      nth_error (l_fld ln) i = nth_error (l_fld (reset_lane fam)) i.
+      (k_junk f = false -> nth_error (l_fld ln) i = nth_error (l_fld (reset_lane fam)) i) /\
+      (forall j, nth_error (l_fld ln) i <> Some (Data j)).
 Proof. exact ooo_free_lane_clean_lemma. Qed.
 Print Assumptions ooo_free_lane_clean.
 
@@ -66,7 +81,8 @@ Theorem manager_families_clean_when_idle :
     idle s ->
     forall ln k f,
       In ln s -> nth_error (i_fam i) k = Some f -> claim f = true ->
-      nth_error (l_fld ln) k = nth_error (l_fld (reset_lane (i_fam i))) k.
+      (k_junk f = false -> nth_error (l_fld ln) k = nth_error (l_fld (reset_lane (i_fam i))) k) /\
+      (forall j, nth_error (l_fld ln) k <> Some (Data j)).
 Proof. exact instances_clean_when_idle_lemma. Qed.
 Print Assumptions manager_families_clean_when_idle.
 
